@@ -186,8 +186,9 @@ def product_of(ops, qs):
     return tot
 
 
-def assert_equal_up_to_phase(cx, P, E, tol, label, small=None):
-    """P = g*E for a unit complex g:  M = P E^dag  must be M00 * identity with |M00| = 1"""
+def assert_equal_up_to_phase(cx, P, E, tol, label, small=None, wrong=False):
+    """P = g*E for a unit complex g:  M = P E^dag  must be M00 * identity with |M00| = 1.
+    wrong=True (vacuity twin): one off-diagonal entry of M is required to be 0.01 instead of 0."""
     Mx = mat_mul(P, dagger(E))
     R = np.empty((4, 4), dtype=object)
     for i in range(4):
@@ -196,7 +197,11 @@ def assert_equal_up_to_phase(cx, P, E, tol, label, small=None):
     R[0, 0] = Mx[0, 0] * (Mx[0, 0].conjugate() if hasattr(Mx[0, 0], 'conjugate') else np.conj(Mx[0, 0])) - 1
     if small and cx.mode == 'sym':
         R = relax_small_angles(cx, R, small)
-    cx.close(R, np.zeros((4, 4)), tol=tol, label=label)
+    target = np.zeros((4, 4))
+    if wrong:
+        cx.opts['vc_timeout_ms'] = 10000  # twin only: bound the witness search per path
+        target[1, 2] = 0.01
+    cx.close(R, target, tol=tol, label=label)
 
 
 # ---- near-threshold regimes ---------------------------------------------------------------------
@@ -370,8 +375,7 @@ def obligations(tier):
             else:
                 ops, n = flat(CZM._xx_yy_zz_interaction_via_full_czs(q0, q1, x, y, z)), 3
             check_shape(cx, ops, cirq.CZPowGate, 3, f'cz.{which}', full=True, exact=n)
-            E = interaction(x + (0.3 if wrong else 0.0), y, z)
-            assert_equal_up_to_phase(cx, product_of(ops, qs), E, 1e-7, f'cz.{which}.product')
+            assert_equal_up_to_phase(cx, product_of(ops, qs), interaction(x, y, z), 1e-7, f'cz.{which}.product', wrong=wrong)
 
         return body
 
@@ -402,8 +406,8 @@ def obligations(tier):
                 ops = flat(MSM._parity_interaction(q0, q1, r, ATOL, gate))
                 check_shape(cx, ops, cirq.XXPowGate, 1, 'ms.parity')
             v = [0.0, 0.0, 0.0]
-            v[axis] = r + (0.3 if wrong else 0.0)
-            assert_equal_up_to_phase(cx, product_of(ops, qs), interaction(*v), KTOL, f'{mod}.parity.product', small)
+            v[axis] = r
+            assert_equal_up_to_phase(cx, product_of(ops, qs), interaction(*v), KTOL, f'{mod}.parity.product', small, wrong=wrong)
 
         return body
 
@@ -444,8 +448,7 @@ def obligations(tier):
             else:
                 ops = flat(MSM._non_local_part(q0, q1, (x, y, z), ATOL))
                 check_shape(cx, ops, cirq.XXPowGate, 3, 'ms.non_local')
-            E = interaction(x + (0.3 if wrong else 0.0), y, z)
-            assert_equal_up_to_phase(cx, product_of(ops, qs), E, KTOL, f'{mod}.non_local.product', small)
+            assert_equal_up_to_phase(cx, product_of(ops, qs), interaction(x, y, z), KTOL, f'{mod}.non_local.product', small, wrong=wrong)
 
         return body
 
@@ -488,8 +491,8 @@ def obligations(tier):
             else:
                 ops = MSM._kak_decomposition_to_operations(q0, q1, kak, ATOL)
                 check_shape(cx, ops, cirq.XXPowGate, 3, 'ms.kak_ops')
-            E = mat_mul(mat_mul(kron2(a0, a1), interaction(x + (0.3 if wrong else 0.0), y, z)), kron2(b0, b1))
-            assert_equal_up_to_phase(cx, product_of(ops, qs), E, KTOL, f'{mod}.kak_ops.product', {**sx, **sy, **sz})
+            E = mat_mul(mat_mul(kron2(a0, a1), interaction(x, y, z)), kron2(b0, b1))
+            assert_equal_up_to_phase(cx, product_of(ops, qs), E, KTOL, f'{mod}.kak_ops.product', {**sx, **sy, **sz}, wrong=wrong)
 
         return body
 
@@ -538,8 +541,7 @@ def obligations(tier):
             else:
                 ops = MSM._kak_decomposition_to_operations(q0, q1, kak, ATOL)
                 check_shape(cx, ops, cirq.XXPowGate, 3, 'chain.ms')
-            E = interaction(x + (0.3 if wrong else 0.0), y, z)
-            assert_equal_up_to_phase(cx, product_of(ops, qs), E, KTOL, f'chain.{mod}.product', small)
+            assert_equal_up_to_phase(cx, product_of(ops, qs), interaction(x, y, z), KTOL, f'chain.{mod}.product', small, wrong=wrong)
 
         return body
 
